@@ -14,7 +14,7 @@ import gen_score as G
 
 PROPERTY = "C16"
 DRIVER = "drv_c16"
-PROPS = ["PartituraModel.Props.C16"]
+PROPS = ["PartituraModel.Props.C16", "PartituraModel.Props.C16Roman"]
 TRUSTED = [
     "copy.deepcopy of scores (the copy is compared with the model only through its notes; the frame check compares the whole argument)",
     "Python dict lookups in STEPS / MIDI_BASE_CLASS / INTERVAL_TO_SEMITONES (tables regenerated into Lean on every run)",
@@ -33,6 +33,32 @@ STEPS = "CDEFGAB"
 BASE = {"C": 0, "D": 2, "E": 4, "F": 5, "G": 7, "A": 9, "B": 11}
 QUALS_P = ["dd", "d", "P", "A", "AA"]
 QUALS_I = ["dd", "d", "m", "M", "A", "AA"]
+
+
+# key names as the DCML / Roman numeral annotations write them: upper case major, lower case minor, accidental after the
+# step letter (so "b" is B minor and "bb" B flat minor)
+KEY_POOL = ["C", "G", "F", "D", "Bb", "Eb", "a", "e", "d", "g", "f#", "c", "b", "bb", "B", "eb", "F#", "c#", "Ab", "ab", "A", "E"]
+
+# degree -> interval above the tonic, written down from scale theory (NOT read from the source): upper-case degrees are
+# the scale degrees of the key they are read in (major scale / natural minor scale), lower-case degrees are the
+# degrees on which a minor triad is built in major resp. the raised degrees, the same in both modes
+DEG_MAJOR = {"I": ("P", 1), "II": ("M", 2), "III": ("M", 3), "III+": ("M", 3), "IV": ("P", 4), "V": ("P", 5), "VI": ("M", 6), "VII": ("M", 7)}
+DEG_MINOR = {"I": ("P", 1), "II": ("M", 2), "III": ("m", 3), "III+": ("m", 3), "IV": ("P", 4), "V": ("P", 5), "VI": ("m", 6), "VII": ("m", 7)}
+DEG_BOTH = {"i": ("P", 1), "ii": ("M", 2), "iii": ("m", 3), "iv": ("P", 4), "v": ("P", 5), "vi": ("M", 6), "vii": ("M", 7),
+            "viio": ("M", 7), "N": ("m", 2), "iio": ("M", 2), "Ger7": ("A", 4), "Fr7": ("A", 4), "It": ("A", 4)}
+
+
+def degree_interval(degree, minor_context):
+    if degree in DEG_BOTH:
+        return DEG_BOTH[degree]
+    return (DEG_MINOR if minor_context else DEG_MAJOR)[degree]
+
+
+def up(step_i, alter, q, n):
+    """(step index, alteration) a diatonic interval higher, by scale arithmetic"""
+    j = (step_i + n - 1) % 7
+    natural = (BASE[STEPS[j]] - BASE[STEPS[step_i]]) % 12
+    return j, alter + semis(q, n) - natural
 
 
 def all_intervals():
@@ -67,8 +93,12 @@ def cases(rng, tier):
         for _ in range(rng.randint(4, 12)):
             dg = rng.choice(degs)
             dg = dg.upper() if rng.random() < 0.5 else dg
-            calls.append([rng.choice(["", "", "b", "#"]) + dg, rng.choice(["C", "G", "F", "D", "Bb", "Eb", "a", "e", "d", "g", "f#", "c"])])
+            calls.append([rng.choice(["", "", "b", "#"]) + dg, rng.choice(KEY_POOL)])
         yield {"k": "lockey", "calls": calls}
+    # chord roots of applied chords: every local key x secondary degree, all primary degrees of the tables in one case
+    for lk in KEY_POOL:
+        for sec in ["I", "II", "III", "IV", "V", "VI", "VII", "i", "ii", "iii", "iv", "v", "vi", "vii", "III+"]:
+            yield {"k": "roman", "key": lk, "sec": sec}
     n = 40 if tier == "quick" else 1500
     ivs = all_intervals()
     for i in range(n):
@@ -85,6 +115,10 @@ def cases(rng, tier):
         # how the Score argument came to be (its flat `.parts` is what the caller sees; `part_structure` may lag behind)
         if not d["as_part"] and rng.random() < 0.4:
             d["score_form"] = rng.choice(["setitem", "assign_parts", "unfolded_max", "unfolded_min", "grouped"])
+        # two parts of one score may carry the same id (first parts of two loaded files are both "P1"), and one part
+        # object may be listed only once: what is transposed is every part the score holds, identified by nothing else
+        if not d["as_part"] and rng.random() < 0.25:
+            d["same_ids"] = True
         yield d
 
 
@@ -187,12 +221,43 @@ def evaluate(d):
             if (e1 is None) != (e2 is None) or (e1 is None and a != b):
                 ev.oracle.append("roman numeral: root of %r is %r the first time and %r the second" % (txt, e1 or a, e2 or b))
         ev.key = "lockey:" + "|".join(l + "/" + g for l, g in d["calls"])
+    elif k == "roman":
+        lk, sec = d["key"], d["sec"]
+        ti = STEPS.index(lk[0].upper())
+        ta = {"": 0, "#": 1, "b": -1}[lk[1:2]]
+        minor_key = lk[0].islower()
+        q1, n1 = degree_interval(sec, minor_key)
+        ai, aa = up(ti, ta, q1, n1)
+        for prim in list(DEG_MAJOR) + list(DEG_BOTH):
+            q2, n2 = degree_interval(prim, sec[0].islower())
+            ri, ra = up(ai, aa, q2, n2)
+            rn, e = call(lambda: S.RomanNumeral("x", inversion=1, local_key=lk, primary_degree=prim, secondary_degree=sec, quality="maj"))
+            ev.requests.append("rroot %s %s %s" % (W.s(lk), W.s(prim), W.s(sec)))
+            if e or not hasattr(rn, "root"):
+                ev.impl.append("err")
+                if -3 < aa < 3 and -3 < ra < 3:
+                    ev.oracle.append("roman root: RomanNumeral(local_key=%r, %s/%s) %s, scale arithmetic gives %s%+d" % (
+                        lk, prim, sec, "raised %r" % (e,) if e else "has no root", STEPS[ri], ra))
+                continue
+            root = rn.root
+            rs = root[0].upper()
+            ral = root[1:].count("#") - root[1:].count("b") - root[1:].count("-")
+            ev.impl.append(W.f_tuple(rs, W.f_int(ral)))
+            if (rs, ral) != (STEPS[ri], ra):
+                ev.oracle.append("roman root: %s/%s in %s has root %r, scale arithmetic gives %s%+d (applied tonic %s%+d)" % (
+                    prim, sec, lk, root, STEPS[ri], ra, STEPS[ai], aa))
+        ev.key = "roman:%s:%s" % (lk, sec)
     elif k == "part":
         rng = random.Random(d["seed"])
         sd = G.random_score_desc(rng, nparts=1 if d["as_part"] else rng.randint(1, 3), p_unp=0.05, p_tie=0.3)
         if d.get("warm"):
             for pd in sd["parts"]:
                 pd["warm"] = d["warm"]
+        if d.get("same_ids"):
+            if len(sd["parts"]) < 2:
+                sd["parts"].append(G.random_part_desc(rng, pid="P1", p_tie=0.3))
+            for pd in sd["parts"]:
+                pd["id"] = "P1"
         score = G.build_score(sd)
         form = d.get("score_form")
         if form == "setitem":
@@ -296,7 +361,7 @@ def evaluate(d):
                     bad = [(x, y) for x, y in zip(sa, sb) if x != y][:2]
                     ev.oracle.append("up and down: (id, step, alter, octave, midi) %s came back as %s" % (
                         [x for x, _ in bad], [y for _, y in bad]))
-        ev.key = "part:%d:%s:%s:%s" % (d["seed"], d.get("warm"), d.get("read_first"), d.get("score_form"))
+        ev.key = "part:%d:%s:%s:%s:%s" % (d["seed"], d.get("warm"), d.get("read_first"), d.get("score_form"), d.get("same_ids"))
     return ev
 
 
